@@ -166,6 +166,7 @@ package types
 //@   ensures sound.recent:  err == nil ==> notRecent(old(tibc), c, signer, number, limit)
 //@   ensures complete:      len(header.Extra) >=s 65 && sealed && notRecent(old(tibc), c, signer, number, limit) && recentsReadable(old(tibc), c) ==> err == nil
 //@   ensures record:        err == nil ==> tibc == old(tibc)[recentSigner(c, header.Height.RevisionNumber, number) := signer]
+//@   ensures effect:        tibc == old(tibc) || tibc == old(tibc)[recentSigner(c, header.Height.RevisionNumber, number) := signer]
 //@   ensures recents.kept:  err == nil && number != 0 ==> recentsOk(tibc, c, number)
 //@   loop #0 invariant seen: forall h: u64 :: visited(h) && mapval(snap.Recents, h) == str(signer) ==> !(h >u number - limit)
 //@   loop #0 invariant pure: tibc == old(tibc)
@@ -198,6 +199,7 @@ package types
 //@   ensures complete:    len(header.Extra) >=s 65 && child && gas && sealed && fresh && recentsReadable(old(tibc), c) ==> err == nil
 //@   ensures seal.once:   child && gas ==> ncalls(verifySeal) == 1 && (forall v in calls(verifySeal) :: v.err == err && v.header == header && v.clientState == clientState && v.store == store)
 //@   ensures record:      err == nil ==> tibc == old(tibc)[recentSigner(c, header.Height.RevisionNumber, number) := signer]
+//@   ensures effect:      tibc == old(tibc) || tibc == old(tibc)[recentSigner(c, header.Height.RevisionNumber, number) := signer]
 //@   ensures recents.kept: err == nil && number != 0 ==> recentsOk(tibc, c, number)
 //@   ensures reject.pure: !(child && gas) ==> err != nil && tibc == old(tibc)
 //@
@@ -234,6 +236,7 @@ package types
 //@   ensures sound:       err == nil ==> basic && extra && child && gas && sealed && fresh
 //@   ensures complete:    basic && extra && child && gas && sealed && fresh && recentsReadable(old(tibc), c) ==> err == nil
 //@   ensures record:      err == nil ==> tibc == old(tibc)[recentSigner(c, header.Height.RevisionNumber, number) := signer]
+//@   ensures effect:      tibc == old(tibc) || tibc == old(tibc)[recentSigner(c, header.Height.RevisionNumber, number) := signer]
 //@   ensures recents.kept: err == nil && number != 0 ==> recentsOk(tibc, c, number)
 //@   ensures reject.pure: !(basic && extra && child && gas) ==> err != nil && tibc == old(tibc)
 //@
@@ -262,6 +265,7 @@ package types
 //@   ensures sound:       err == nil ==> basic && extra && child && gas && sealed && fresh
 //@   ensures complete:    basic && extra && child && gas && sealed && fresh && recentsReadable(old(tibc), c) ==> err == nil
 //@   ensures record:      err == nil ==> tibc == old(tibc)[recentSigner(c, header.Height.RevisionNumber, number) := signer]
+//@   ensures effect:      tibc == old(tibc) || tibc == old(tibc)[recentSigner(c, header.Height.RevisionNumber, number) := signer]
 //@   ensures recents.kept: err == nil && number != 0 ==> recentsOk(tibc, c, number)
 //@   ensures reject.pure: !(basic && extra && child && gas) ==> err != nil && tibc == old(tibc)
 //@
@@ -312,6 +316,7 @@ package types
 //@   ensures pruned:   err == nil && number >=u lenLim ==> !present(tibc[recentSigner(c, hrev, number - lenLim)])
 //@   ensures recents.kept: recentsOk(tibc, c, number)
 //@   ensures frame:    forall k: key :: !is_recentSigner(k) && k != pk ==> tibc[k] == old(tibc)[k]
+//@   ensures frame.client: forall k: key :: !inClient(k, c) ==> tibc[k] == old(tibc)[k]
 //@   loop #0 invariant range: -1 <=s rangeindex && rangeindex <s seqlen(validators)
 //@   loop #0 invariant set:   domset(newVals) == vprefix(validators, rangeindex + 1)
 //@   loop #0 invariant card:  rangeindex + 1 == seqlen(validators) ==> len(newVals) == nvals(validators)
@@ -324,4 +329,60 @@ package types
 //@   loop #1 invariant kept:    recentsOk(tibc, c, number)
 //@   loop #1 invariant pending: (isEpoch ==> pbdec_obj(ValidatorSet, 0, optstr(tibc[pk])) == parsedVals(str(header.Extra))) && (!isEpoch ==> tibc[pk] == old(tibc)[pk])
 //@   loop #1 invariant frame:   forall k: key :: !is_recentSigner(k) && k != pk ==> tibc[k] == old(tibc)[k]
+//@   loop #1 invariant frame.client: forall k: key :: !inClient(k, c) ==> tibc[k] == old(tibc)[k]
 //@   loop #1 decreases oldLimit - newLimit - i
+//@
+//@ // CheckHeaderAndUpdateState (one step of the header chain): a header is accepted if and only if the consensus state of
+//@ // the latest header is readable and the header passes the stand-alone checks, lists validators only on epoch blocks,
+//@ // is the direct child of the latest header within the gas bounds, and is sealed in turn by a validator without a
+//@ // recent-signer record inside the window; after acceptance the latest header and the returned consensus state are the
+//@ // header's, the validator set switches exactly len(validators)/2 blocks after an epoch, the sealer is recorded and
+//@ // records inside the window are kept. Requires the representation invariant of the client (installed by Initialize
+//@ // from the trusted initial state, kept by every accepted header) and block numbers below 2^63 - 1.
+//@ func (ClientState).CheckHeaderAndUpdateState(ctx, cdc, store, header) (newCS, newCons, err)
+//@   props C17
+//@   modifies tibc
+//@   let c       = clientOf(store)
+//@   let h       = as(header, Header)
+//@   let parent  = self.Header
+//@   let latest  = parent.Height.RevisionHeight
+//@   let number  = h.Height.RevisionHeight
+//@   let hrev    = h.Height.RevisionNumber
+//@   let chain   = bigof(self.ChainId)
+//@   let signer  = sealer(pack(h), chain)
+//@   let V0      = self.Validators
+//@   let limit   = nvals(V0) / 2 + 1
+//@   let co      = tibc[consState(c, parent.Height.RevisionNumber, latest)]
+//@   let consOk  = present(co) && clienttypes.decodesCons(val(co)) && isa(clienttypes.consDecode(val(co)), ConsensusState)
+//@   let isEpoch = number % self.Epoch == 0
+//@   let nbytes  = len(h.Extra) - 97
+//@   let basic   = len(h.Extra) >=s 97 && hash32(str(h.MixDigest)) == zeroarr(32) && hash32(str(h.UncleHash)) == str(uncleHash) && (number >u 0 ==> h.Difficulty != 0)
+//@   let extra   = ite(isEpoch, nbytes % 20 == 0, nbytes == 0)
+//@   let child   = latest == number - 1 && bscHash(pack(parent)) == hash32(str(h.ParentHash))
+//@   let gdiff   = ite(parent.GasLimit >=u h.GasLimit, parent.GasLimit - h.GasLimit, h.GasLimit - parent.GasLimit)
+//@   let gas     = h.GasLimit <=u 0x7fffffffffffffff && h.GasUsed <=u h.GasLimit && gdiff <u parent.GasLimit / 256 && h.GasLimit >=u 5000
+//@   let sealed  = sealedBy(pack(h), chain, str(h.Coinbase), V0, latest, h.Difficulty)
+//@   let fresh   = notRecent(old(tibc), c, signer, number, limit)
+//@   let switch  = number % self.Epoch == len(V0) / 2
+//@   let pk      = clientRaw(c, "pendingValidators")
+//@   let pend    = ite(isEpoch, parsedVals(str(h.Extra)), pbdec_obj(ValidatorSet, 0, optstr(old(tibc)[pk])))
+//@   let V1      = ite(switch, pend, V0)
+//@   let setLim  = nvals(V1) / 2 + 1
+//@   requires header.type: isa(header, Header)
+//@   requires epoch:       self.Epoch != 0
+//@   requires recents:     recentsOk(tibc, c, latest)
+//@   requires parent.gas:  parent.GasLimit <=u 0x7fffffffffffffff
+//@   requires sane:        latest <u 0x7ffffffffffffffe
+//@   ensures sound:        err == nil ==> consOk && basic && extra && child && gas && sealed && fresh
+//@   ensures complete:     consOk && basic && extra && child && gas && sealed && fresh && recentsReadable(old(tibc), c) ==> err == nil
+//@   ensures latest:       err == nil ==> pack(newCS.Header) == pack(h)
+//@   ensures cons:         err == nil ==> newCons.Timestamp == h.Time && newCons.Number == h.Height && str(newCons.Root) == str(h.Root)
+//@   ensures vals:         err == nil ==> newCS.Validators == V1
+//@   ensures params:       err == nil ==> newCS.ChainId == self.ChainId && newCS.Epoch == self.Epoch && newCS.BlockInteval == self.BlockInteval && newCS.TrustingPeriod == self.TrustingPeriod && str(newCS.ContractAddress) == str(self.ContractAddress)
+//@   ensures pending:      err == nil ==> (isEpoch ==> pbdec_obj(ValidatorSet, 0, optstr(tibc[pk])) == parsedVals(str(h.Extra))) && (!isEpoch ==> tibc[pk] == old(tibc)[pk])
+//@   ensures recorded:     err == nil ==> tibc[recentSigner(c, hrev, number)] == some(signer)
+//@   ensures window:       err == nil ==> (forall rn: u64, q: u64 :: q >u number - setLim && q != number ==> tibc[recentSigner(c, rn, q)] == old(tibc)[recentSigner(c, rn, q)])
+//@   ensures inv.recents:  err == nil ==> recentsOk(tibc, c, number)
+//@   ensures inv.gas:      err == nil ==> newCS.Header.GasLimit <=u 0x7fffffffffffffff
+//@   ensures frame:        forall k: key :: !inClient(k, c) ==> tibc[k] == old(tibc)[k]
+//@   ensures nonnil:       err == nil ==> newCS != nil && newCons != nil
